@@ -30,10 +30,14 @@ Qed.
 Lemma skip_gen_spec i c : skip_gen i c = negb (i && c).
 Proof. destruct i, c; reflexivity. Qed.
 
-Lemma exposedb_gen_spec f : exposedb skip_gen f = spec_exposed f.
-Proof. unfold exposedb, spec_exposed. rewrite skip_gen_spec. apply negb_involutive. Qed.
+(* ... and a field without a "cmd" key counts as cmd=True, so: exposed = init and not declared cmd=False *)
+Lemma exposedb_gen_spec f : exposedb skip_gen cmd_default_gen f = spec_exposed f.
+Proof.
+  unfold exposedb, spec_exposed. rewrite skip_gen_spec, negb_involutive.
+  destruct (hf_cmd f) as [[|]|]; reflexivity.
+Qed.
 
-Lemma filter_exposed fs : filter (exposedb skip_gen) fs = filter spec_exposed fs.
+Lemma filter_exposed fs : filter (exposedb skip_gen cmd_default_gen) fs = filter spec_exposed fs.
 Proof. apply filter_ext. exact exposedb_gen_spec. Qed.
 
 (* ---------- option strings of an entry: the accepted spellings, each once, whatever the seed ---------- *)
@@ -160,7 +164,7 @@ Qed.
 Theorem default_shown_refuted :
   exists c D f v, spec_effective D f = Some v /\ e_default (entry_of_gen (fun l => l) c D f) = None.
 Proof.
-  exists default_cfg_parser, [], (mkhf (mkfw ["a"] "x" "" [] false) true true " " (Some "3")), "3".
+  exists default_cfg_parser, [], (mkhf (mkfw ["a"] "x" "" [] false) true None " " (Some "3")), "3".
   split; reflexivity.
 Qed.
 
@@ -190,8 +194,8 @@ Lemma entry_of_true ah tok ad st p1 p2 c D f :
   entry_of ah tok ad st true p1 c D f = entry_of ah tok ad st true p2 c D f.
 Proof. reflexivity. Qed.
 
-Lemma cli_help_of_true sk ah tok ad st p1 p2 hs ho c pre cfgf s :
-  cli_help_of sk ah tok ad st true p1 hs ho c pre cfgf s = cli_help_of sk ah tok ad st true p2 hs ho c pre cfgf s.
+Lemma cli_help_of_true sk cd ah tok ad st p1 p2 hs ho c pre cfgf s :
+  cli_help_of sk cd ah tok ad st true p1 hs ho c pre cfgf s = cli_help_of sk cd ah tok ad st true p2 hs ho c pre cfgf s.
 Proof.
   unfold cli_help_of. destruct s as [F'|e]; reflexivity.
 Qed.
@@ -210,7 +214,7 @@ Proof.
   apply cli_help_of_true.
 Qed.
 
-Definition W_ab : list hwrap := [mkhw "K" ["a"] [mkhf (mkfw ["a"] "bb" "" ["cc"] false) true true "" (Some "1")]].
+Definition W_ab : list hwrap := [mkhw "K" ["a"] [mkhf (mkfw ["a"] "bb" "" ["cc"] false) true None "" (Some "1")]].
 
 (* with a hash-ordered set, two valid oracles print two different entry lists for one field with two equal-length spellings *)
 Theorem deterministic_refuted :
@@ -227,9 +231,9 @@ Qed.
 (* worse: which option strings exist at all depends on the oracle, because the conflict resolver repairs the first
    clash it meets.  a.ab (alias cd), b.cd, c.ab: under one order `--cd` belongs to b.cd, under the other it does not exist *)
 Definition W_clash : list hwrap :=
-  [mkhw "A" ["a"] [mkhf (mkfw ["a"] "ab" "" ["cd"] false) true true "" (Some "1")];
-   mkhw "B" ["b"] [mkhf (mkfw ["b"] "cd" "" [] false) true true "" (Some "1")];
-   mkhw "C" ["c"] [mkhf (mkfw ["c"] "ab" "" [] false) true true "" (Some "1")]].
+  [mkhw "A" ["a"] [mkhf (mkfw ["a"] "ab" "" ["cd"] false) true None "" (Some "1")];
+   mkhw "B" ["b"] [mkhf (mkfw ["b"] "cd" "" [] false) true None "" (Some "1")];
+   mkhw "C" ["c"] [mkhf (mkfw ["c"] "ab" "" [] false) true None "" (Some "1")]].
 
 Definition accepted_of (r : helprun) : list string :=
   match r_printed r with Some (_, gs) => map fst (registered gs) | None => [] end.
@@ -417,7 +421,7 @@ Qed.
 
 (* the forest used by the non-vacuity example of Properties/C16.v *)
 Definition demo_forest : list hwrap :=
-  [mkhw "K1" ["a"] [mkhf (mkfw ["a"] "bb" "" ["cc"] false) true true "the value" (Some "1");
-                    mkhf (mkfw ["a"] "hid" "" [] false) true false "secret" (Some "9");
-                    mkhf (mkfw ["a"] "x" "" [] false) true true "" None]].
+  [mkhw "K1" ["a"] [mkhf (mkfw ["a"] "bb" "" ["cc"] false) true (Some true) "the value" (Some "1");
+                    mkhf (mkfw ["a"] "hid" "" [] false) true (Some false) "secret" (Some "9");
+                    mkhf (mkfw ["a"] "x" "" [] false) true None "" None]].
 
